@@ -315,6 +315,10 @@ ares_status_t ares_init_by_options(ares_channel_t            *channel,
   }
 
   if (optmask & ARES_OPT_TIMEOUTMS) {
+    /* ARES_OPT_TIMEOUT names the same field in seconds; milliseconds win and
+     * the legacy bit must not stay behind in the channel's option mask, where
+     * ares_save_options() does not know it */
+    optmask &= ~(ARES_OPT_TIMEOUT);
     /* Apparently some integrations were passing -1 to tell c-ares to use
      * the default instead of just omitting the optmask */
     if (options->timeout <= 0) {
